@@ -101,13 +101,16 @@ def sackInterval (t : Tracker) (next : Ivl) : Tracker :=
   else
     { t with ivs := insertIvl t.ivs next.lo next.hi }
 
-/-- body of the `for` of `process_sack` for one pair of edges -/
+/-- `if (seq_compare(range.last(), ack_number_) > 0) { while (range.has_next()) ... }` -/
+def sackRange (t : Tracker) (range : Range) : Tracker :=
+  if seqCompare range.last t.ack > 0 then
+    range.intervals.foldl sackInterval t
+  else t
+
+/-- body of the `for` of `process_sack` for one pair of edges; `sack[i] - 1` wraps -/
 def sackBlock (t : Tracker) (left right : Nat) : Tracker :=
   if seqCompare left right < 0 then
-    let range : Range := ⟨left, wrap32 (right + 4294967296 - 1)⟩
-    if seqCompare range.last t.ack > 0 then
-      range.intervals.foldl sackInterval t
-    else t
+    sackRange t ⟨left, wrap32 (right + 4294967295)⟩
   else t
 
 /-- `AckTracker::process_sack`: `for (i = 1; i < sack.size(); i += 2)` over pairs; a trailing odd edge is ignored -/
@@ -130,13 +133,16 @@ def decodeEdges : List UInt8 → List Nat
 def decodeSack (data : List UInt8) : SackOpt :=
   if data.length % 4 != 0 then .malformed else .edges (decodeEdges data)
 
+/-- first `if` of `process_packet`: the cumulative ACK advances and the intervals at or below it are erased -/
+def ackStep (t : Tracker) (ackSeq : Nat) : Tracker :=
+  if seqCompare ackSeq t.ack > 0 then
+    { cleanupSackedIntervals t t.ack ackSeq with ack := ackSeq }
+  else t
+
 /-- `AckTracker::process_packet` for a packet that has a TCP layer; the flag is `true` when
     `malformed_option` leaves the function (after the cumulative ACK has already been processed). -/
 def processPacket (t : Tracker) (ackSeq : Nat) (sack : SackOpt) : Tracker × Bool :=
-  let t1 :=
-    if seqCompare ackSeq t.ack > 0 then
-      { cleanupSackedIntervals t t.ack ackSeq with ack := ackSeq }
-    else t
+  let t1 := ackStep t ackSeq
   if t1.useSack then
     match sack with
     | .absent => (t1, false)
@@ -148,7 +154,7 @@ def processPacket (t : Tracker) (ackSeq : Nat) (sack : SackOpt) : Tracker × Boo
 def isSegmentAcked (t : Tracker) (seq len : Nat) : Bool :=
   if len = 0 then true
   else
-    let range : Range := ⟨seq, wrap32 (seq + len + 4294967296 - 1)⟩
+    let range : Range := ⟨seq, wrap32 (seq + len + 4294967295)⟩
     range.intervals.all (fun i =>
       !(decide (seqCompare i.hi t.ack ≥ 0) && !containsIvl t.ivs i.lo i.hi))
 
